@@ -15,6 +15,7 @@ class Ctx:
         self.defs = {}
         self.full = full    # C07's fully supported subset only (no pattern/format/allOf/oneOf/unsupported)
         self.ndefs = 0
+        self.key_hints = []
 
 
 def pattern(ctx, kind="value"):
@@ -111,7 +112,7 @@ def gen_schema(ctx, depth):
         n = rng.randint(0, 3)
         names = rng.sample(["a", "b", "id", "name", "x y", "é", "k1", "tags"], n)
         if n:
-            s["properties"] = {k: gen_schema(ctx, depth - 1) for k in names}
+            s["properties"] = {k: (False if rng.random() < 0.06 else gen_schema(ctx, depth - 1)) for k in names}
             req = [k for k in names if rng.random() < 0.6]
             if req:
                 s["required"] = req
@@ -120,10 +121,24 @@ def gen_schema(ctx, depth):
             s["additionalProperties"] = False
         elif x < 0.7:
             s["additionalProperties"] = gen_schema(ctx, depth - 1)
-        if not ctx.full and rng.random() < 0.15:
-            s["patternProperties"] = {"^p[0-9]$": gen_schema(ctx, depth - 1)}
-            ctx.pats.append({"text": [ord(c) for c in "^p[0-9]$"], "as": 1, "ae": 1,
-                             "ast": {"k": "cat", "a": [{"k": "lit", "s": [112]}, {"k": "cls", "neg": 0, "cps": list(range(48, 58))}]}})
+        if not ctx.full and rng.random() < 0.25:
+            pp = {}
+            for pfx, code in rng.sample([("p", 112), ("q", 113), ("x_", None)], rng.randint(1, 2)):
+                if code is None:
+                    text = "^x_"
+                    ast = {"k": "lit", "s": [120, 95]}
+                    ae = 0
+                else:
+                    text = "^%s[0-9]$" % pfx
+                    ast = {"k": "cat", "a": [{"k": "lit", "s": [code]}, {"k": "cls", "neg": 0, "cps": list(range(48, 58))}]}
+                    ae = 1
+                # an unsatisfiable value schema forbids the keys altogether
+                pp[text] = False if rng.random() < 0.3 else gen_schema(ctx, depth - 1)
+                ctx.pats.append({"text": [ord(c) for c in text], "as": 1, "ae": ae, "ast": ast})
+                ctx.key_hints.append(pfx + "1")
+            s["patternProperties"] = pp
+            if rng.random() < 0.5 and s.get("additionalProperties") is False:
+                s["additionalProperties"] = gen_schema(ctx, 0)
         if not ctx.full and rng.random() < 0.15 and set(s.get("required", [])) == set(names):
             lo = len(names) + rng.choice([0, 1])
             s["minProperties"] = lo
@@ -182,7 +197,7 @@ def top_schema(rng, full=False, depth=2):
                          {"whitespace_pattern": "[ \\n]{0,2}"}, {"item_separator": ", ?", "key_separator": ": ?"}])
         s = dict(s)
         s["x-guidance"] = xg
-    return s, ctx.pats
+    return s, ctx.pats, ctx.key_hints
 
 
 # ---------------------------------------------------------------- instances
